@@ -18,6 +18,12 @@ R5 'disconnect' is triggered only in _handle_disconnect and in
 R6 failed wait: ConnectionError for missing namespaces is preceded by
    self.disconnect(); `connected` is set only when every requested namespace
    was accepted (or no wait was asked).
+R7 disconnect() always closes the transport.
+R8 lowering the flag is final: a packet handler (_handle_error,
+   _handle_disconnect) that lowers `connected` also closes the transport on
+   that path - otherwise the CONNECT answers still in flight are processed
+   afterwards (_handle_connect has no flag test) and list namespaces under a
+   lowered flag, whose disconnect is then never reported.
 """
 import ast
 
@@ -451,7 +457,53 @@ def r7_disconnect_closes(ctx, fam):
                 where(f))
 
 
+def r8_lowering_final(ctx, fam):
+    m = ctx.model
+    C = CLIENT[fam]
+    n = 0
+    for name in ('_handle_error', '_handle_disconnect'):
+        f = m.method(C, name)
+        construct = '%s.%s' % (C, name)
+        run = run_function(f, m)
+        seen = set()
+        for p in run.paths:
+            if not p.normal:
+                continue
+            low = [e for e in p.events if e.kind == 'store' and
+                   U(e.expr) == 'self.connected' and
+                   not is_const(e.extra, True)]
+            if not low:
+                continue
+            n += 1
+            closes = [e for e in p.calls('disconnect')
+                      if e.recv() == 'self.eio']
+            guard = [c for c in p.conds if c.at <= low[0].idx]
+            g = guard[-1] if guard else None
+            gtxt = ('' if g is None or g.pol else 'not ') + (
+                U(run.expand(g.atom)) if g is not None else 'always')
+            if (gtxt, bool(closes)) in seen:
+                continue
+            seen.add((gtxt, bool(closes)))
+            ctx.check(bool(closes), construct, '`connected` lowered when %s: '
+                      'the transport is closed on the same path' % gtxt,
+                      key='flag lowered with the transport left open when '
+                      + gtxt, reason='`connected` is lowered (line %d) when '
+                      '%s but the transport stays open: a CONNECT answer '
+                      'that arrives afterwards lists its namespace (and runs '
+                      'its connect handler) on a client that reports '
+                      'connected == False, and the loss of the transport '
+                      'then reports no disconnect for it'
+                      % (low[0].lineno, gtxt), where=where(f, low[0].node))
+    if n < 2:
+        raise AnalysisError('%s: only %d flag-lowering handler paths found'
+                            % (C, n))
+
+
 def run(ctx):
+    ctx.rule('C08.R8', 'a packet handler that lowers `connected` closes the '
+             'transport on the same path', floor=4)
+    for fam in SA:
+        r8_lowering_final(ctx, fam)
     ctx.rule('C08.R7', 'disconnect() always closes the transport', floor=2)
     for fam in SA:
         r7_disconnect_closes(ctx, fam)
